@@ -25,12 +25,6 @@ var preludeParts = map[string]string{
 	"Is": `(declare-fun Is (Int Int) Bool)
 `,
 	"bor": `(declare-fun bor (Int Int) Int)
-(assert (forall ((x Int) (y Int)) (! (= (bor x y) (bor y x)) :pattern ((bor x y)))))
-(assert (forall ((y Int)) (! (= (bor 0 y) y) :pattern ((bor 0 y)))))
-(assert (forall ((x Int) (y Int)) (! (=> (and (<= 0 x) (< x 128) (<= 0 y) (= (mod y 128) 0)) (= (bor x y) (+ x y))) :pattern ((bor x y)))))
-(assert (forall ((x Int) (y Int)) (! (=> (and (<= 0 x) (< x 16384) (<= 0 y) (= (mod y 16384) 0)) (= (bor x y) (+ x y))) :pattern ((bor x y)))))
-(assert (forall ((x Int) (y Int)) (! (=> (and (<= 0 x) (< x 2097152) (<= 0 y) (= (mod y 2097152) 0)) (= (bor x y) (+ x y))) :pattern ((bor x y)))))
-(assert (forall ((x Int) (y Int)) (! (=> (and (<= 0 x) (< x 268435456) (<= 0 y) (= (mod y 268435456) 0)) (= (bor x y) (+ x y))) :pattern ((bor x y)))))
 `,
 	"band": `(declare-fun band (Int Int) Int)
 `,
@@ -132,6 +126,9 @@ func VerifyFunction(P *Program, S *Specs, key string) (res *FuncResult) {
 				g := sc.evalBool(e.Expr)
 				o := x.oblige("ensures", e.Tags, out.pc, g, fn.Pos(), e.Text)
 				o.Name = fmt.Sprintf("%s/ensures#%d", x.Key, k+1)
+				if e.Label != "" {
+					o.Name = fmt.Sprintf("%s/ensures#%s", x.Key, e.Label)
+				}
 			}
 		}
 		o := x.oblige("canary", nil, out.pc, TFalse, fn.Pos(), "the exit of the function is reachable under its preconditions")
@@ -164,7 +161,7 @@ func (o *Obligation) SMT() string {
 		goal = append(goal, Not(o.Goal))
 	}
 	for _, a := range coneOfInfluence(x.assumes[:o.NAssume], goal) {
-		if o.IsCanary && hasQuantifier(a.Fact) {
+		if (o.IsCanary || o.relaxed) && hasQuantifier(a.Fact) {
 			continue // reachability is checked against the quantifier-free part
 		}
 		s.Asserts = append(s.Asserts, Implies(a.PC, a.Fact))
@@ -214,6 +211,26 @@ func (d *Discharger) Run(obls []*Obligation) {
 	}
 	close(ch)
 	wg.Wait()
+	// model search: failed obligations without a model are retried with the
+	// quantified assumptions dropped; a model found this way is only a candidate
+	// (it is validated by replay on the real code).
+	var retry []*Obligation
+	for _, o := range obls {
+		if !o.IsCanary && o.Exec != nil && (o.Res.Answer == "unknown" || o.Res.Answer == "timeout") {
+			retry = append(retry, o)
+		}
+	}
+	for _, o := range retry {
+		o.relaxed = true
+		txt := o.SMT()
+		o.relaxed = false
+		fname := strings.NewReplacer("/", "_", "(", "", ")", "", "*", "", "$", "_", "#", "-", "@", "-").Replace(o.Name) + ".relaxed"
+		r := Solve(d.Dir, fname, txt, d.Timeout, false)
+		if r.Answer == "sat" {
+			o.Res.Model = r.Model
+			o.RelaxedModel = true
+		}
+	}
 }
 
 func writeFileMk(path, content string) {
